@@ -34,6 +34,7 @@ type HarnessSpec struct {
 	WallST    int            `json:"wall_s_thorough"`
 	Race      bool           `json:"race"`
 	What      string         `json:"what"`
+	Overrides map[string]string `json:"overrides"` // repo function -> harness function (assume-guarantee summary)
 }
 
 type PropSpec struct {
@@ -214,6 +215,11 @@ func cmdCheck(args []string) int {
 		for _, m := range hs.Merge {
 			p.MergeFns[m] = true
 		}
+		p.Overrides = map[string]string{}
+		for k, v := range hs.Overrides {
+			p.Overrides[k] = v
+		}
+		p.ResetCaches()
 		params := hs.Quick
 		wall := hs.WallS
 		if tier == "thorough" {
